@@ -576,7 +576,11 @@ func (state *RuntimeState) idpOpenIDCValidCodeVerifier(clientId string, codeVeri
 }
 
 func (state *RuntimeState) idpOpenIDCTokenHandler(w http.ResponseWriter, r *http.Request) {
-
+	// Needs the signer: refuse while sealed (this also orders the unlocked
+	// reads of the signer below after the unseal transition).
+	if state.sendFailureToClientIfLocked(w, r) {
+		return
+	}
 	// MUST be POST https://openid.net/specs/openid-connect-core-1_0.html 3.1.3.1
 	if !(r.Method == "POST") {
 		logger.Printf("invalid method")
@@ -902,6 +906,11 @@ type openidConnectUserInfo struct {
 
 func (state *RuntimeState) idpOpenIDCUserinfoHandler(w http.ResponseWriter,
 	r *http.Request) {
+	// As every other endpoint: refuse while sealed (this also orders the
+	// unlocked reads of the key list below after the unseal transition).
+	if state.sendFailureToClientIfLocked(w, r) {
+		return
+	}
 	if !(r.Method == "GET" || r.Method == "POST" || r.Method == "OPTIONS") {
 		logger.Printf("Invalid Method for Userinfo Handler")
 		state.writeFailureResponse(w, r, http.StatusBadRequest,
